@@ -3,79 +3,359 @@ package main
 import (
 	"fmt"
 	"go/ast"
+	"go/parser"
 	"go/token"
 	"go/types"
+	"os"
 	"path/filepath"
-	"strconv"
+	"sort"
 	"strings"
+
+	"github.com/mmcloughlin/avo/ir"
+	"github.com/mmcloughlin/avo/operand"
+	"github.com/mmcloughlin/avo/pass"
+	"github.com/mmcloughlin/avo/reg"
+	"github.com/mmcloughlin/avo/x86"
 )
 
-func init() {
-	// Gen.PassFacts: small syntactic facts about pass/pass.go and pass/cleanup.go with
-	// hand-written expectations on the Lean side.
-	genLean["PassFacts"] = func(repo string) (string, error) {
-		var b strings.Builder
-		b.WriteString("-- REGENERATED by avoh gen-lean PassFacts (go/ast over pass/pass.go, pass/cleanup.go). Do not edit.\nnamespace Avo.Gen\n")
-		// 1. the pass list of Compile
-		_, f, err := parseFile(filepath.Join(repo, "pass", "pass.go"))
+// Gen.PassFacts:
+//   compileOrder     — the ordered pass list of pass.Compile. Compile is an opaque closure at run time, so the list is
+//                      read from the source, but by EVALUATING the initialiser rather than by matching one syntactic
+//                      shape: Concat(a, b, ...), nested Concat calls, package-level variables holding a Concat,
+//                      Concat(f()...) / Concat(xs...) where the slice is built by composite literals and append calls
+//                      in straight-line code. Each element is rendered as written (e.g. "FunctionPass(Liveness)").
+//   selfMoveOpcodes  — MEASURED: every opcode of the form table that has a two-register form is built as `OPC r, r`
+//                      on one general-purpose register and run through the real pass.PruneSelfMoves; listed are the
+//                      opcodes whose instruction was deleted (ordered by operand width, then name).
+
+type passEval struct {
+	funcs map[string]*ast.FuncDecl // package-level functions of package pass
+	vars  map[string]ast.Expr      // package-level variables with an initialiser
+	depth int
+}
+
+func newPassEval(dir string) (*passEval, error) {
+	fset := token.NewFileSet()
+	ents, err := os.ReadDir(dir)
+	if err != nil {
+		return nil, err
+	}
+	pe := &passEval{funcs: map[string]*ast.FuncDecl{}, vars: map[string]ast.Expr{}}
+	for _, e := range ents {
+		n := e.Name()
+		if e.IsDir() || !strings.HasSuffix(n, ".go") || strings.HasSuffix(n, "_test.go") {
+			continue
+		}
+		f, err := parser.ParseFile(fset, filepath.Join(dir, n), nil, 0)
 		if err != nil {
-			return "", err
+			return nil, err
 		}
-		var order []string
-		ast.Inspect(f, func(n ast.Node) bool {
-			vs, ok := n.(*ast.ValueSpec)
-			if !ok || len(vs.Names) != 1 || vs.Names[0].Name != "Compile" || len(vs.Values) != 1 {
-				return true
-			}
-			call, ok := vs.Values[0].(*ast.CallExpr)
-			if !ok {
-				return true
-			}
-			for _, a := range call.Args {
-				order = append(order, types.ExprString(a))
-			}
-			return false
-		})
-		if len(order) == 0 {
-			return "", fmt.Errorf("Compile pass list not found")
-		}
-		fmt.Fprintf(&b, "def compileOrder : List String := %s\n", leanStrList(order))
-		// 2. opcode list and predicate of PruneSelfMoves
-		_, f, err = parseFile(filepath.Join(repo, "pass", "cleanup.go"))
-		if err != nil {
-			return "", err
-		}
-		var opcodes []string
-		var pred string
 		for _, d := range f.Decls {
-			fd, ok := d.(*ast.FuncDecl)
-			if !ok || fd.Name.Name != "PruneSelfMoves" {
-				continue
-			}
-			ast.Inspect(fd, func(n ast.Node) bool {
-				switch x := n.(type) {
-				case *ast.CaseClause:
-					for _, e := range x.List {
-						if lit, ok := e.(*ast.BasicLit); ok && lit.Kind == token.STRING {
-							s, _ := strconv.Unquote(lit.Value)
-							opcodes = append(opcodes, s)
-						}
-					}
-				case *ast.ReturnStmt:
-					if len(x.Results) == 1 {
-						if _, isBin := x.Results[0].(*ast.BinaryExpr); isBin {
-							pred = types.ExprString(x.Results[0])
+			switch x := d.(type) {
+			case *ast.FuncDecl:
+				if x.Recv == nil {
+					pe.funcs[x.Name.Name] = x
+				}
+			case *ast.GenDecl:
+				if x.Tok != token.VAR {
+					continue
+				}
+				for _, sp := range x.Specs {
+					vs := sp.(*ast.ValueSpec)
+					if len(vs.Names) == len(vs.Values) {
+						for i, nm := range vs.Names {
+							pe.vars[nm.Name] = vs.Values[i]
 						}
 					}
 				}
-				return true
-			})
+			}
 		}
-		if opcodes == nil || pred == "" {
-			return "", fmt.Errorf("PruneSelfMoves shape not recognised")
+	}
+	return pe, nil
+}
+
+func isIdent(e ast.Expr, name string) bool {
+	id, ok := e.(*ast.Ident)
+	return ok && id.Name == name
+}
+
+// passes flattens an expression denoting ONE pass (possibly a Concat of passes) into the list of leaf passes.
+func (pe *passEval) passes(e ast.Expr, env map[string][]string) ([]string, error) {
+	pe.depth++
+	defer func() { pe.depth-- }()
+	if pe.depth > 40 {
+		return nil, fmt.Errorf("pass list evaluation too deep")
+	}
+	switch x := e.(type) {
+	case *ast.ParenExpr:
+		return pe.passes(x.X, env)
+	case *ast.CallExpr:
+		if isIdent(x.Fun, "Concat") {
+			var out []string
+			for i, a := range x.Args {
+				if x.Ellipsis.IsValid() && i == len(x.Args)-1 {
+					xs, err := pe.slice(a, env)
+					if err != nil {
+						return nil, err
+					}
+					out = append(out, xs...)
+					continue
+				}
+				xs, err := pe.passes(a, env)
+				if err != nil {
+					return nil, err
+				}
+				out = append(out, xs...)
+			}
+			return out, nil
+		}
+	case *ast.Ident:
+		if init, ok := pe.vars[x.Name]; ok && x.Name != "Compile" {
+			if c, ok := init.(*ast.CallExpr); ok && isIdent(c.Fun, "Concat") {
+				return pe.passes(init, nil)
+			}
+		}
+	}
+	return []string{types.ExprString(e)}, nil
+}
+
+// slice evaluates an expression denoting a SLICE of passes.
+func (pe *passEval) slice(e ast.Expr, env map[string][]string) ([]string, error) {
+	pe.depth++
+	defer func() { pe.depth-- }()
+	if pe.depth > 40 {
+		return nil, fmt.Errorf("pass list evaluation too deep")
+	}
+	switch x := e.(type) {
+	case *ast.ParenExpr:
+		return pe.slice(x.X, env)
+	case *ast.CompositeLit:
+		var out []string
+		for _, el := range x.Elts {
+			if kv, ok := el.(*ast.KeyValueExpr); ok {
+				el = kv.Value
+			}
+			xs, err := pe.passes(el, env)
+			if err != nil {
+				return nil, err
+			}
+			out = append(out, xs...)
+		}
+		return out, nil
+	case *ast.Ident:
+		if x.Name == "nil" {
+			return nil, nil
+		}
+		if v, ok := env[x.Name]; ok {
+			return append([]string(nil), v...), nil
+		}
+		if init, ok := pe.vars[x.Name]; ok {
+			return pe.slice(init, nil)
+		}
+		return nil, fmt.Errorf("pass list: unknown slice variable %s", x.Name)
+	case *ast.CallExpr:
+		if isIdent(x.Fun, "append") && len(x.Args) >= 1 {
+			out, err := pe.slice(x.Args[0], env)
+			if err != nil {
+				return nil, err
+			}
+			for i, a := range x.Args[1:] {
+				if x.Ellipsis.IsValid() && i == len(x.Args)-2 {
+					xs, err := pe.slice(a, env)
+					if err != nil {
+						return nil, err
+					}
+					out = append(out, xs...)
+					continue
+				}
+				xs, err := pe.passes(a, env)
+				if err != nil {
+					return nil, err
+				}
+				out = append(out, xs...)
+			}
+			return out, nil
+		}
+		if isIdent(x.Fun, "make") {
+			return nil, nil
+		}
+		if id, ok := x.Fun.(*ast.Ident); ok && len(x.Args) == 0 {
+			if fd, ok := pe.funcs[id.Name]; ok && fd.Body != nil {
+				return pe.call(fd)
+			}
+		}
+		// a conversion such as []Interface(xs)
+		if len(x.Args) == 1 {
+			if _, isArr := x.Fun.(*ast.ArrayType); isArr {
+				return pe.slice(x.Args[0], env)
+			}
+		}
+	}
+	return nil, fmt.Errorf("pass list: unsupported slice expression %s", types.ExprString(e))
+}
+
+// call evaluates a parameterless function made of straight-line declarations, assignments and a return.
+func (pe *passEval) call(fd *ast.FuncDecl) ([]string, error) {
+	env := map[string][]string{}
+	// named results
+	if fd.Type.Results != nil {
+		for _, f := range fd.Type.Results.List {
+			for _, n := range f.Names {
+				env[n.Name] = nil
+			}
+		}
+	}
+	for _, st := range fd.Body.List {
+		switch s := st.(type) {
+		case *ast.DeclStmt:
+			gd, ok := s.Decl.(*ast.GenDecl)
+			if !ok || gd.Tok != token.VAR {
+				continue
+			}
+			for _, sp := range gd.Specs {
+				vs := sp.(*ast.ValueSpec)
+				for i, n := range vs.Names {
+					if i < len(vs.Values) {
+						v, err := pe.slice(vs.Values[i], env)
+						if err != nil {
+							return nil, err
+						}
+						env[n.Name] = v
+					} else {
+						env[n.Name] = nil
+					}
+				}
+			}
+		case *ast.AssignStmt:
+			if len(s.Lhs) != len(s.Rhs) {
+				return nil, fmt.Errorf("pass list: unsupported assignment in %s", fd.Name.Name)
+			}
+			for i := range s.Lhs {
+				id, ok := s.Lhs[i].(*ast.Ident)
+				if !ok {
+					return nil, fmt.Errorf("pass list: unsupported assignment target in %s", fd.Name.Name)
+				}
+				v, err := pe.slice(s.Rhs[i], env)
+				if err != nil {
+					return nil, err
+				}
+				env[id.Name] = v
+			}
+		case *ast.ReturnStmt:
+			if len(s.Results) == 0 {
+				for _, f := range fd.Type.Results.List {
+					for _, n := range f.Names {
+						return env[n.Name], nil
+					}
+				}
+				return nil, fmt.Errorf("pass list: bare return in %s", fd.Name.Name)
+			}
+			return pe.slice(s.Results[0], env)
+		case *ast.EmptyStmt:
+		default:
+			return nil, fmt.Errorf("pass list: unsupported statement in %s", fd.Name.Name)
+		}
+	}
+	return nil, fmt.Errorf("pass list: %s does not return", fd.Name.Name)
+}
+
+// selfMovePruned measures which two-register opcodes pass.PruneSelfMoves deletes when both operands are the same
+// general-purpose register.
+func selfMovePruned(repo string) ([]string, error) {
+	db, err := loadForms(repo)
+	if err != nil {
+		return nil, err
+	}
+	widths := map[string]reg.Register{"r8": reg.CL, "r16": reg.CX, "r32": reg.ECX, "r64": reg.RCX}
+	order := map[string]int{"r8": 1, "r16": 2, "r32": 3, "r64": 4}
+	type hit struct {
+		w    int
+		name string
+	}
+	seen := map[string]bool{}
+	var hits []hit
+	for i := range db.rows {
+		row := &db.rows[i]
+		var ts []string
+		for j, o := range row.Operands {
+			if !o.Implicit {
+				ts = append(ts, row.TypeNames[j])
+			}
+		}
+		if len(ts) != 2 || ts[0] != ts[1] || widths[ts[0]] == nil || len(row.Suffixes) > 0 && len(row.Suffixes[0]) > 0 {
+			continue
+		}
+		key := row.Opcode + "/" + ts[0]
+		if seen[key] {
+			continue
+		}
+		seen[key] = true
+		r := widths[ts[0]]
+		var inst *ir.Instruction
+		if err, p := safely(func() error {
+			var e error
+			inst, e = x86.VerifBuild(row.Opcode, nil, []operand.Op{r, r})
+			return e
+		}); err != nil || p || inst == nil {
+			continue
+		}
+		fn := ir.NewFunction("f")
+		fn.AddInstruction(inst)
+		ret, _ := x86.VerifBuild("RET", nil, nil)
+		fn.AddInstruction(ret)
+		if err, p := safely(func() error { return pass.PruneSelfMoves(fn) }); err != nil || p {
+			return nil, fmt.Errorf("PruneSelfMoves failed on %s: %v", row.Opcode, err)
+		}
+		kept := false
+		for _, i2 := range fn.Instructions() {
+			if i2 == inst {
+				kept = true
+			}
+		}
+		if !kept {
+			hits = append(hits, hit{order[ts[0]], row.Opcode})
+		}
+	}
+	sort.Slice(hits, func(a, b int) bool {
+		if hits[a].w != hits[b].w {
+			return hits[a].w < hits[b].w
+		}
+		return hits[a].name < hits[b].name
+	})
+	var out []string
+	for _, h := range hits {
+		if len(out) == 0 || out[len(out)-1] != h.name {
+			out = append(out, h.name)
+		}
+	}
+	return out, nil
+}
+
+func init() {
+	genLean["PassFacts"] = func(repo string) (string, error) {
+		var b strings.Builder
+		b.WriteString("-- REGENERATED by avoh gen-lean PassFacts (pass list: evaluated initialiser of pass.Compile; self-move opcodes: measured on pass.PruneSelfMoves). Do not edit.\nnamespace Avo.Gen\n")
+		pe, err := newPassEval(filepath.Join(repo, "pass"))
+		if err != nil {
+			return "", err
+		}
+		init, ok := pe.vars["Compile"]
+		if !ok {
+			return "", fmt.Errorf("pass.Compile: package-level variable with initialiser not found")
+		}
+		order, err := pe.passes(init, nil)
+		if err != nil {
+			return "", err
+		}
+		if len(order) == 0 {
+			return "", fmt.Errorf("Compile pass list is empty")
+		}
+		fmt.Fprintf(&b, "def compileOrder : List String := %s\n", leanStrList(order))
+		opcodes, err := selfMovePruned(repo)
+		if err != nil {
+			return "", err
 		}
 		fmt.Fprintf(&b, "def selfMoveOpcodes : List String := %s\n", leanStrList(opcodes))
-		fmt.Fprintf(&b, "def selfMovePredicate : String := %s\n", leanStr(pred))
 		b.WriteString("end Avo.Gen\n")
 		return b.String(), nil
 	}
